@@ -345,6 +345,31 @@ class World:
         self.tuple_dts = {}
         self.theories = {}                # element sort name -> axiomatic sequence theory (axioms assumed on every path)
 
+    def link_bases(self):
+        """opt-in single inheritance between IN-SCOPE classes (additive, C06): a class gets the methods / properties / class attributes
+        of its in-scope base classes that it does not define itself (nearest base first).  Bases that are not in scope contribute nothing."""
+        done = set()
+
+        def link(ci):
+            if ci.name in done:
+                return
+            done.add(ci.name)
+            for b in ci.bases:
+                bi = self.classes.get(b)
+                if bi is None or bi is ci:
+                    continue
+                link(bi)
+                for table in ("methods", "props", "class_attrs"):
+                    mine, theirs = getattr(ci, table), getattr(bi, table)
+                    for k, v in theirs.items():
+                        if k not in ci.methods and k not in ci.props and k not in ci.class_attrs:
+                            mine[k] = v
+                ci.classmethods |= {m for m in bi.classmethods if ci.methods.get(m) is bi.methods.get(m)}
+                ci.staticmethods |= {m for m in bi.staticmethods if ci.methods.get(m) is bi.methods.get(m)}
+        for ci in list(self.classes.values()):
+            link(ci)
+        return self
+
     def aseq(self, elem: "T"):
         es = self.sort_of(elem)
         if es.name() not in self.theories:
